@@ -252,6 +252,12 @@ PROGRAMS = {
               0x76, 0x3E, 0x05, 0xD3, 0xFE, 0x06, 0x05, 0xDD, 0x21, 0x00, 0x80, 0xDD, 0x34, 0x10, 0x10, 0xFB, 0x76, 0xF3, 0xDD, 0xFD, 0xDD, 0x23, 0xFB, 0x00, 0x00, 0x18, 0xD5],
     # HALT sitting in contended memory next to the 0x8000 boundary is placed by the driver (org 0x7FF0)
     'halt': [0x31, 0x00, 0x90, 0xED, 0x56, 0xFB, 0x76, 0x3C, 0x76, 0x3C, 0xC3, 0x05, 0x00],
+    # 128K: lock paging (bit 5 of 0x7FFD), then try to page again; write through 0xC000 before and after
+    'lock128': [0x31, 0x00, 0x90, 0x01, 0xFD, 0x7F, 0x3E, 0x03, 0xED, 0x79, 0x3E, 0xAA, 0x32, 0x00, 0xC0, 0x3E, 0x24, 0xED, 0x79, 0x3E, 0xBB, 0x32, 0x01, 0xC0,
+                0x3E, 0x01, 0xED, 0x79, 0x3A, 0x00, 0xC0, 0x3E, 0xCC, 0x32, 0x02, 0xC0, 0x3E, 0x06, 0xED, 0x79, 0x3E, 0xDD, 0x32, 0x03, 0xC0, 0x18, 0xFE],
+    # 128K: select an AY 'register' number with bit 5 set on 0xFFFD, write 0xBFFD, then page through 0x7FFD
+    'ay128': [0x31, 0x00, 0x90, 0x01, 0xFD, 0xFF, 0x3E, 0x2A, 0xED, 0x79, 0x06, 0xBF, 0x3E, 0x11, 0xED, 0x79, 0x01, 0xFD, 0xFF, 0x3E, 0x07, 0xED, 0x79, 0x06, 0xBF, 0x3E, 0x33, 0xED, 0x79,
+              0x01, 0xFD, 0x7F, 0x3E, 0x04, 0xED, 0x79, 0x3E, 0xAA, 0x32, 0x00, 0xC0, 0x3E, 0x01, 0xED, 0x79, 0x3E, 0xBB, 0x32, 0x00, 0xC0, 0x01, 0xFD, 0xFF, 0xED, 0x78, 0x18, 0xFE],
 }
 
 
@@ -271,9 +277,19 @@ def resume_case(args):
         ext = rnd.choice(('z80', 'szx'))
         extra = rnd.choice(([], ['--python'], ['-c'], ['-c', '--python']))
         N = rnd.choice((40, 90, 150))
-        n1 = rnd.randrange(1, N)
         t0 = rnd.choice((0, 69000, 69800, 14000, 14400, rnd.randrange(69888)))
         base = ['-o', str(org), '-s', str(org), '--state', 'tstates=%d' % t0] + extra
+        if name.endswith('128'):
+            # a 128K snapshot with the program in bank 2 (0x8000); distinct bank contents
+            from skoolkit.snapshot import write_snapshot
+            org = 32768
+            banks = [[(b * 16 + 1) & 255] * 0x4000 for b in range(8)]
+            banks[2][:len(prog)] = prog
+            binf = os.path.join(tmp, 'p128.' + ext)
+            write_snapshot(binf, banks, ['pc=32768', 'sp=36864'], ['7ffd=0', 'tstates=%d' % t0], '128K')
+            N = rnd.choice((12, 20, 26))
+            base = list(extra)
+        n1 = rnd.randrange(1, N)
         full = os.path.join(tmp, 'full.' + ext)
         a = os.path.join(tmp, 'a.' + ext)
         b = os.path.join(tmp, 'b.' + ext)
